@@ -137,6 +137,15 @@ def gen_item(rng, items, name=None):
         if q < 0.445:
             # module-level __livepatch__ hook (transparent)
             return dict(k="modhook", name=rng.choice(HOOK_NAMES), hook=rng.choice(["plain", "varkw", "first", "extra", "order"]))
+        if q < 0.475:
+            # closure with an EMPTY cell (C16-H3): the target of `except ... as e` is unbound after the handler, a variable
+            # after `del`; "late" = the cell is filled in one version and empty in the other when `how` is mutated
+            return dict(k="ecell", name=rng.choice(["ec", "ec2"]), how=rng.choice(["except", "except", "del", "filled"]),
+                        c=rng.choice(INTS))
+        if q < 0.505:
+            # __slots__ that must not be read literally (C16-H4): a single string, a private (name-mangled) slot
+            return dict(k="oddslots", name=rng.choice(["S1", "S2"]), form=rng.choice(["str", "str", "mangled", "both"]),
+                        c=rng.choice(INTS), v=rng.choice(INTS), inst=rng.random() < 0.6)
     if r < 0.04 and name is None:
         st = rng.choice(EXT_IMPORTS)
         return dict(k="import", stmt=st, name=st.split()[-1])
@@ -376,6 +385,22 @@ def render_item(it):
     if k == "modhook":
         sig, body = HOOKS[it["hook"]]
         return ["def %s(%s):\n    %s" % (n, sig, body)]
+    if k == "ecell":
+        pre = {"except": "    try:\n        1/0\n    except ZeroDivisionError as e:\n        pass\n",
+               "del": "    e = 1\n    del e\n",
+               "filled": "    e = 1\n"}[it["how"]]
+        return ["def _mk_%s():\n%s    def get(k=1):\n        if k is None:\n            return e\n        return k + %d\n    return get"
+                % (n, pre, it["c"]),
+                "%s = _mk_%s()" % (n, n)]
+    if k == "oddslots":
+        form = it["form"]
+        sl = {"str": "'value'", "mangled": "('__pv', )", "both": "('value', '__pv')"}[form]
+        at = "value" if form != "mangled" else "__pv"
+        out = ["class %s:\n    __slots__ = %s\n    def __init__(self, v=0):\n        self.%s = v\n"
+               "    def get(self, a=1):\n        return a + %d + self.%s" % (n, sl, at, it["c"], at)]
+        if it.get("inst"):
+            out.append("%s_i = %s(%d)" % (n.lower(), n, it["v"]))
+        return out
     if k == "moody":
         return ["def _mk_%s():\n    reg = c16ext_a.Moody(%d)\n    def get(k=1):\n        return reg.v + k + %d\n    return get" % (n, it["v"], it["c"]),
                 "%s = _mk_%s()" % (n, n)]
@@ -601,6 +626,21 @@ def mutate(rng, items):
                 it["c"] = rng.choice(INTS)
             elif k == "moody":
                 it[rng.choice(["v", "c"])] = rng.choice(INTS)
+            elif k == "ecell":
+                if rng.random() < 0.8:
+                    it["c"] = rng.choice(INTS)
+                else:
+                    it["how"] = rng.choice(["except", "del", "filled"])
+            elif k == "oddslots":
+                # mostly the method changes (class patched in place); the instance state only sometimes: the instance
+                # side of literally-read __slots__ is the listed finding D50
+                w = rng.random()
+                if w < 0.75:
+                    it["c"] = rng.choice(INTS)
+                elif w < 0.9:
+                    it["v"] = rng.choice(INTS)
+                else:
+                    it["form"] = rng.choice(["str", "mangled", "both"])
             elif k == "modhook":
                 it["hook"] = rng.choice(["plain", "varkw", "first", "extra", "order"])
             elif k == "func" and rng.random() < 0.06:
